@@ -150,6 +150,10 @@ def judge_text(obj, cfg):
     failures = []
     sc = X.Script(**(obj.get('script') or {}))
     for cfg_ in CONFIGS:
+        if obj.get('only_dbg') and not cfg_[1]:
+            continue          # RESUME needs the debug section
+        if obj.get('only_nodbg') and cfg_[1]:
+            continue
         c = X.compile_one(obj['text'], *cfg_)
         name = X.cfg_name(cfg_)
         if c.kind != 'accepted':
